@@ -21,6 +21,7 @@ from ..models import pest_grammar as pg
 GRAMMAR_PATH = os.path.join(core.REPO, "compiler", "src", "grammar.pest")
 MAX_BYTES = 4096
 CPU_FIRST, CPU_ALONE = 20, 120
+THOROUGH_SHAPES = [False]      # set by run(): shapes that need minutes of CPU (a listed known finding) run in the thorough tier only
 
 # ----------------------------------------------------------------------------- lexer for mutation
 
@@ -395,6 +396,16 @@ def resource_catalogue():
                     continue
                 body_ = ht_ % (lit_ if hn_ in ("print", "assign") else lit_)
                 one("codegen_error_%s_%s_%s" % (hn_, wn_, lit_[1:]), pre_ + (wt_ % body_) + "\n")
+    # a function passed where a function of another (deeply nested) type is expected (repaired finding dd9f40d: 2^depth)
+    for n_ in (16, 22, 30, 60):
+        one("fntype_chain_argument_mismatch_x%d" % n_, "f = fn(g: " + "fn() -> " * n_ + "int) {}\nh = fn(k: " + "fn() -> " * n_ + "str) {\n\tf(k)\n}\n")
+        one("fntype_chain_return_mismatch_x%d" % n_, "h = fn(k: " + "fn() -> " * n_ + "str) -> " + "fn() -> " * n_ + "int {\n\treturn k\n}\n")
+        one("fntype_chain_assign_mismatch_x%d" % n_, "h = fn(k: " + "fn() -> " * n_ + "str, j: " + "fn() -> " * n_ + "int) {\n\tk = j\n}\n")
+    # same-named aliases of optional lists redefined over another element type (known finding at depth 30, thorough tier)
+    for n_ in ((14, 30) if THOROUGH_SHAPES[0] else (14,)):
+        l_ = ["type T0 [int]"] + ["type T%d [T%d?]" % (k_, k_ - 1) for k_ in range(1, n_)] + ["a: T%d? = nil" % (n_ - 1)]
+        l_ += ["type T0 [str]"] + ["type T%d [T%d?]" % (k_, k_ - 1) for k_ in range(1, n_)] + ["b: T%d? = a" % (n_ - 1)]
+        one("alias_optlist_redefined_x%d" % n_, "\n".join(l_) + "\n")
     # string literals the scanner of the nesting guard and the grammar must delimit identically
     for tn_, lit_ in (("backslash_backslash_quote", '"\\\\" + "'), ("escaped_quote", '"a\\"b" + "'), ("hash_in_string", '"#" + "'),
                       ("triple_hash_in_string", '"###" + "'), ("backslash_n", '"\\n" + "'), ("lone_backslash_end", '"a\\\\"')):
@@ -1140,6 +1151,7 @@ def plan(ctx):
     g = grammar()
     RAW_DEPTH[0] = ctx.n(2, 3)
     PLACE_ALL[0] = not ctx.quick
+    THOROUGH_SHAPES[0] = not ctx.quick
     WIDE_LIMIT[0] = ctx.n(12, 40)
     ncat = len(resource_catalogue()) + len(pinned_catalogue())
     items = [("cat", i, 8) for i in range(0, ncat, 8)]
